@@ -17,7 +17,8 @@ git -C $wt checkout -q --detach "$(git -C /repo rev-parse HEAD)" && git -C $wt c
 if ! git -C $wt apply --check "$patch" 2>/dev/null; then echo "patch does not apply"; exit 2; fi
 git -C $wt apply "$patch"
 trap 'git -C $wt checkout -q -- . ; git -C $wt clean -fdq tests src 2>/dev/null' EXIT
-rsync -a --delete --exclude target /verif/harness/ $sb/harness/
+# the harness as COMMITTED in /verif (edits in progress in the working tree must not leak into a slot)
+rm -rf $sb/harness.new && mkdir -p $sb/harness.new && git -C /verif archive HEAD harness | tar -x -C $sb/harness.new && rsync -a --delete --checksum $sb/harness.new/harness/ $sb/harness/ && rm -rf $sb/harness.new
 sed -i "s#path = \"/repo\"#path = \"$wt\"#" $sb/harness/Cargo.toml
 suite=$(cd $wt && CARGO_TARGET_DIR=$sb/rtarget cargo test --workspace --no-fail-fast --offline 2>&1 | grep -E '^test result' | head -1)
 echo "SUITE: $suite"
